@@ -570,6 +570,8 @@ def gen_layout(rng, words, limit, feats):
             if col + 1 + len(w) > maxw:
                 k = "newline"
         if k == "blanks":
+            if "#" in w and col + nb + 1 + w.index("#") < 5:
+                nb = 5  # a '#' in columns 1-5 means vertical input format
             gaps.append({"k": "blanks", "n": nb})
             col += nb + 1 + len(w)
             continue
@@ -578,8 +580,8 @@ def gen_layout(rng, words, limit, feats):
             pre_b = rng.randint(0, 2)
             t = rng.randint(0, 3) if "trail" in feats else 0
             n = rng.randint(0, 8)
-            if "#" in w[: max(0, 5 - n)] or (n < 5 and w.lower() == "c"):
-                n = 5
+            if n < 5 and ("#" in w[: 5 - n] or w.lower() == "c" or len(w) < 5 - n):
+                n = 5 + n  # no '#' in columns 1-5, no lone 'c' there, and no short word that leaves room for a '#' behind it
             if col + pre_b + 2 + t > maxw:
                 k = "newline"
             else:
@@ -697,7 +699,7 @@ def assemble(rng, prob_title, message, blocks_lines, phys):
     if phys.get("final_blank"):
         lines.append("")
         if phys.get("junk"):
-            lines += ["this is text after the terminator", "nps 77"]
+            lines += ["c MCNP ignores what follows the blank line that ends the data block", "nps 77"]
     eol = "\r\n" if phys.get("crlf") else "\n"
     text = eol.join(lines) + eol
     if phys.get("no_final_eol"):
